@@ -29,7 +29,17 @@ Record case := {
   (* observed: FittedTfIdfVectorizer (its own fit, hence its own column order) *)
   c_tvocab : list string; c_tnentries : N;
   c_ttrain : fmat; c_ttest : fmat;
-  c_idfs : list ((N * N) * float)           (* ((n, df), TfIdfMethod::compute_idf(n, df)) *)
+  c_idfs : list ((N * N) * float);          (* ((n, df), TfIdfMethod::compute_idf(n, df)) *)
+  (* observed: a second, independent fit of both vectorisers on the same input (every HashMap gets its
+     own RandomState, hence its own enumeration order and column numbering) *)
+  c_vocab2 : list string; c_ctrain2 : cmat;    (* the second fit transforms the training corpus only *)
+  c_tvocab2 : list string; c_ttrain2 : fmat;
+  (* expression-level probes ((f32 bits, n), (f * n as f32) as usize) evaluated by the harness itself:
+     ties [abs_bound] to Rust's f32 product and float -> usize cast also for document counts that no
+     corpus can reach (around 2^24 and beyond) *)
+  c_bounds : list ((Z * N) * N);
+  (* ((k, n), bits of k as f32 / n as f32) evaluated by the harness: ties [ratio32_z] to Rust's f32 division *)
+  c_ratios : list ((N * N) * Z)
 }.
 
 Definition settings_of (c : case) : settings :=
@@ -93,7 +103,14 @@ Definition corr_case (c : case) : N :=
    + flag (N.eqb (cm_rows (c_ctrain c)) (N.of_nat (List.length tr)) && N.eqb (cm_rows (c_ctest c)) (N.of_nat (List.length te))
            && N.eqb (fm_rows (c_ttrain c)) (N.of_nat (List.length tr)) && N.eqb (fm_rows (c_ttest c)) (N.of_nat (List.length te))
            && N.eqb (cm_cols (c_ctrain c)) (N.of_nat (List.length m)) && N.eqb (cm_cols (c_ctest c)) (N.of_nat (List.length m))
-           && N.eqb (fm_cols (c_ttrain c)) (N.of_nat (List.length m)) && N.eqb (fm_cols (c_ttest c)) (N.of_nat (List.length m))) 256)%N.
+           && N.eqb (fm_cols (c_ttrain c)) (N.of_nat (List.length m)) && N.eqb (fm_cols (c_ttest c)) (N.of_nat (List.length m))) 256
+   + flag (let mc2 := fst (reindex (enum_as (c_vocab2 c) m)) in
+           let mt2 := fst (reindex (enum_as (c_tvocab2 c) m)) in
+           same_set (keys m) (c_vocab2 c) && same_set (keys m) (c_tvocab2 c)
+           && list_eqb (list_eqb pairNN_eqb) (toNN (count_rows (s_nmin s) (s_nmax s) mc2 tr)) (cm_data (c_ctrain2 c))
+           && list_eqb (list_eqb pairNF_eqb) (toNF (tfidf_rows B64_ops lnf mth (s_nmin s) (s_nmax s) mt2 tr)) (fm_data (c_ttrain2 c))) 512
+   + flag (forallb (fun q => N.eqb (abs_bound_z (b32_of_bits (fst (fst q))) (Z.of_N (snd (fst q)))) (snd q)) (c_bounds c)
+           && forallb (fun q => sf_eqb (ratio32_z (Z.of_N (fst (fst q))) (Z.of_N (snd (fst q)))) (b32_of_bits (snd q))) (c_ratios c)) 1024)%N.
 
 (* ---------------------------------------------------------------------------------------------- *)
 (** * property oracle: the naive recount, from the reference definitions only *)
@@ -175,6 +192,42 @@ Definition oracle_tfidf (c : case) (vocab : list string) (grams : list (list str
          && forallb (row_wf (List.length vocab)) (fm_data m)) 16,
    flag (forall2b (tfidf_row_ok c vocab (List.length grams) grams) grams (fm_data m)) 1)%N.
 
+(* the word -> value content of a matrix whose columns are numbered by [vocab]: two independently
+   fitted vectorisers (different hash enumeration orders) must agree on it *)
+Fixpoint pos_of (w : string) (vocab : list string) (i : N) : option N :=
+  match vocab with
+  | [] => None
+  | a :: r => if String.eqb a w then Some i else pos_of w r (N.succ i)
+  end.
+
+Fixpoint sget_opt {V} (j : N) (row : list (N * V)) : option V :=
+  match row with
+  | [] => None
+  | (i, v) :: r => if N.eqb i j then Some v else sget_opt j r
+  end.
+
+Definition opt_eqb {V} (eqV : V -> V -> bool) (a b : option V) : bool :=
+  match a, b with
+  | None, None => true
+  | Some x, Some y => eqV x y
+  | _, _ => false
+  end.
+
+Definition content_eq {V} (eqV : V -> V -> bool) (vocab1 : list string) (rows1 : list (list (N * V)))
+           (vocab2 : list string) (rows2 : list (list (N * V))) : bool :=
+  (same_set vocab1 vocab2
+   && forallb (fun w => match pos_of w vocab1 0%N, pos_of w vocab2 0%N with
+                        | Some i, Some j => forall2b (fun r1 r2 => opt_eqb eqV (sget_opt i r1) (sget_opt j r2)) rows1 rows2
+                        | _, _ => false
+                        end) vocab1)%bool.
+
+Definition oracle_invariance (c : case) : N :=
+  flag (content_eq N.eqb (c_vocab c) (cm_data (c_ctrain c)) (c_vocab2 c) (cm_data (c_ctrain2 c))
+        && content_eq f64_biteq (c_tvocab c) (fm_data (c_ttrain c)) (c_tvocab2 c) (fm_data (c_ttrain2 c))
+        (* ... and the count vectoriser and the tf-idf vectoriser (a third and fourth enumeration) store the same pattern *)
+        && content_eq (fun _ _ => true) (c_vocab c) (map (map (fun p => (fst p, tt))) (cm_data (c_ctrain c)))
+                      (c_tvocab c) (map (map (fun p => (fst p, tt))) (fm_data (c_ttrain c)))) 4096.
+
 Definition oracle_case (c : case) : N :=
   let s := settings_of c in
   let gtr := map (fun d => ngrams_ref (s_nmin s) (s_nmax s) (toks_of c d)) (c_train c) in
@@ -187,7 +240,8 @@ Definition oracle_case (c : case) : N :=
     [oracle_vocab c gtr (c_vocab c); oracle_vocab c gtr (c_tvocab c);
      w1; w2; w3; w4; (k1 * 32)%N; (k2 * 64)%N; (k3 * 128)%N; (k4 * 256)%N;
      flag (N.eqb (c_nentries c) (N.of_nat (List.length (c_vocab c)))
-           && N.eqb (c_tnentries c) (N.of_nat (List.length (c_tvocab c)))) 512] 0%N.
+           && N.eqb (c_tnentries c) (N.of_nat (List.length (c_tvocab c)))) 512;
+     oracle_invariance c] 0%N.
 
 Definition run_case (c : case) : verdict := (c_id c, (corr_case c, oracle_case c)).
 Definition run_cases (cs : list case) : list N := report (map run_case cs).
